@@ -331,6 +331,9 @@ func jobsFor(prop, tier string) []*Job {
 				if (t == 1 || t == 2) && sh.Nz == 0 && sh.Mask&(sh.Mask-1) != 0 && !thorough {
 					continue // many scalar-presence forks times several encodings
 				}
+				if t == 8 && sh.NList > 1 && !thorough {
+					sh.NList = 1 // every filter's option byte multiplies the paths of Dump by 36
+				}
 				j := add("det/"+tn(t), "ZZ_C11_det", []string{"det"}, append([]int{b2i(thorough)}, sh.Args()...)...)
 				j.NoValidate = true
 			}
@@ -379,6 +382,9 @@ func jobsFor(prop, tier string) []*Job {
 				}
 				if (t == 1 || t == 2) && sh.Nz == 0 && sh.Mask&(sh.Mask-1) != 0 && !thorough {
 					continue
+				}
+				if t == 8 && sh.NList > 1 && !thorough {
+					sh.NList = 1
 				}
 				for built := 0; built <= 1; built++ {
 					j := add("ro/"+tn(t), "ZZ_C13_ro", []string{"ro"}, append([]int{built}, sh.Args()...)...)
